@@ -62,6 +62,18 @@ def mkcfg(kind, c, rng):
 
 def random_free(kind, c, rng, n):
     """free-running scenario: jittered, mostly increasing timestamps, duplicates and boundaries"""
+    if c.get("manykeys"):
+        # many keys with one short session each, all closed by ONE watermark step (a far event of a fresh key), then once more
+        steps, i = [], 0
+        for rnd in range(2):
+            t0 = rnd * (10 * c["size"] + 2 * c["moo"] + 5)
+            for k in range(c["manykeys"]):
+                for _ in range(rng.choice([1, 1, 2])):
+                    i += 1
+                    steps.append({"a": "add", "id": i, "ts": t0 + rng.randint(0, c["size"] - 1), "g": "k%d" % k})
+            i += 1
+            steps.append({"a": "add", "id": i, "ts": t0 + 6 * c["size"] + c["moo"] + 2, "g": "closer%d" % rnd})
+        return steps
     steps, t = [], rng.randint(0, 3 * c["size"])
     for i in range(1, n + 1):
         r = rng.random()
@@ -119,6 +131,8 @@ def run_family(prop, tier, plan, free_plan, assumptions, mc_extra=(), post=None,
             for _ in range(count):
                 n += 1
                 sc = {"tr": n, "cfg": mkcfg(kind, c, rng), "steps": random_free(kind, c, rng, length), "free": True}
+                if c.get("perf"):
+                    sc["perf"] = c["perf"]      # overflow strategy / buffer sizes / slowed consumer
                 scen[n] = sc
                 f.write(json.dumps(sc) + "\n")
         # bursts: the producer outruns the trigger goroutine (held at its gate) by more watermark advances than the
